@@ -383,9 +383,23 @@ let query (op : string) (a : n list) : string =
 let iter_run (src : string) (ops : string) (a : n list) : string =
   let out = ref [] in
   let emit x = out := x :: !out in
+  (* nth(k) / nth_back(k): k+1 steps, the answer of the last one (None as soon as one step returns None);
+     k = 1 (k, r), 7 (j, q), usize::MAX (K, R) *)
+  let nth_count ch = match ch with 'k' | 'r' -> 1 | 'j' | 'q' -> 7 | _ -> max_int in
+  let nth_steps (step : unit -> string option) (cnt : int) : unit =
+    (* step () = Some "S.." (a value), Some "N", or Some fault string; returns when done *)
+    let rec go c = match step () with
+      | Some a when String.length a > 0 && a.[0] = 'S' -> if c = 0 then emit a else go (c - 1)
+      | Some a -> emit a
+      | None -> emit "X" in
+    go cnt in
   let tree_iter (get_u : n -> n outcome) (len : n) =
     let st = ref (wtit_new len) in
     String.iter (fun ch -> match ch with
+      | 'k' | 'j' | 'K' -> nth_steps (fun () -> match wtit_next get_u !st with
+            | Val (v, st') -> st := st'; Some (match v with Some x -> "S" ^ sn x | None -> "N") | Fault e -> Some (fault_s e)) (nth_count ch)
+      | 'r' | 'q' | 'R' -> nth_steps (fun () -> match wtit_next_back get_u !st with
+            | Val (v, st') -> st := st'; Some (match v with Some x -> "S" ^ sn x | None -> "N") | Fault e -> Some (fault_s e)) (nth_count ch)
       | 'n' -> (match wtit_next get_u !st with Val (v, st') -> st := st'; emit (match v with Some x -> "S" ^ sn x | None -> "N") | Fault e -> emit (fault_s e))
       | 'b' -> (match wtit_next_back get_u !st with Val (v, st') -> st := st'; emit (match v with Some x -> "S" ^ sn x | None -> "N") | Fault e -> emit (fault_s e))
       | 'l' -> emit (sv sn (wtit_len !st))
@@ -397,12 +411,16 @@ let iter_run (src : string) (ops : string) (a : n list) : string =
    | Qv q ->
      let i = ref N0 in
      String.iter (fun ch -> match ch with
+       | 'k' | 'j' | 'K' -> nth_steps (fun () -> match qvit_next q !i with
+             | Val (v, i') -> i := i'; Some (match v with Some x -> "S" ^ sn x | None -> "N") | Fault e -> Some (fault_s e)) (nth_count ch)
        | 'n' -> (match qvit_next q !i with Val (v, i') -> i := i'; emit (match v with Some x -> "S" ^ sn x | None -> "N") | Fault e -> emit (fault_s e))
        | _ -> emit "X") ops
    | Rsq (_, r) ->
      let q = r.rsq_qv in
      let i = ref N0 in
      String.iter (fun ch -> match ch with
+       | 'k' | 'j' | 'K' -> nth_steps (fun () -> match qvit_next q !i with
+             | Val (v, i') -> i := i'; Some (match v with Some x -> "S" ^ sn x | None -> "N") | Fault e -> Some (fault_s e)) (nth_count ch)
        | 'n' -> (match qvit_next q !i with Val (v, i') -> i := i'; emit (match v with Some x -> "S" ^ sn x | None -> "N") | Fault e -> emit (fault_s e))
        | _ -> emit "X") ops
    | Bv (_, b) | Da (_, { da_bv = b; _ }) ->
@@ -410,6 +428,8 @@ let iter_run (src : string) (ops : string) (a : n list) : string =
       | "iter" | "bits" | "into" ->
         let i = ref N0 in
         String.iter (fun ch -> match ch with
+          | 'k' | 'j' | 'K' -> nth_steps (fun () -> match (if src = "into" then bvinto_next b !i else bvit_next b !i) with
+              | Val (v, i') -> i := i'; Some (match v with Some x -> "S" ^ sb01 x | None -> "N") | Fault e -> Some (fault_s e)) (nth_count ch)
           | 'n' -> (match (if src = "into" then bvinto_next b !i else bvit_next b !i) with
               | Val (v, i') -> i := i'; emit (match v with Some x -> "S" ^ sb01 x | None -> "N") | Fault e -> emit (fault_s e))
           | 'l' -> emit (sv sn (bvit_len b !i))
@@ -418,6 +438,8 @@ let iter_run (src : string) (ops : string) (a : n list) : string =
         let bit = (src = "ones" || src = "oneswp") in
         let st = ref (if src = "ones" || src = "zeros" then pi_new else pi_with_pos bit b (List.hd a)) in
         String.iter (fun ch -> match ch with
+          | 'k' | 'j' | 'K' -> nth_steps (fun () -> let (v, st') = pi_next bit b !st in st := st';
+              Some (match v with Some x -> "S" ^ sn x | None -> "N")) (nth_count ch)
           | 'n' -> let (v, st') = pi_next bit b !st in st := st'; emit (match v with Some x -> "S" ^ sn x | None -> "N")
           | _ -> emit "X") ops
       | _ -> emit "-")
